@@ -11,8 +11,25 @@ from .formula import show
 LIT = 'lit'
 
 
+class FD(dict):
+    """hashable dict literal"""
+
+    def __hash__(self):
+        return hash(tuple(sorted((repr(k), repr(v)) for k, v in self.items())))
+
+
+def _freeze(v):
+    if isinstance(v, dict) and not isinstance(v, FD):
+        return FD({_freeze(k): _freeze(x) for k, x in v.items()})
+    if isinstance(v, (list, tuple)):
+        return tuple(_freeze(x) for x in v)
+    if isinstance(v, set):
+        return frozenset(_freeze(x) for x in v)
+    return v
+
+
 def lit(v):
-    return (LIT, v)
+    return (LIT, _freeze(v))
 
 
 def is_lit(e):
@@ -124,8 +141,17 @@ def fold(e, bind):
                 return lit(args[0][1].join(args[1][1]))
             if allc and name in ('is', 'isnot') and len(args) == 2:
                 return lit((args[0][1] is args[1][1]) == (name == 'is'))
-            if name == 'dict' and args and all(is_lit(a) for a in args):
-                return lit(dict(zip([a[1] for a in args[0::2]], [a[1] for a in args[1::2]])))
+            if name in ('.sub', '.split', '.search', '.match') and len(args) >= 3 and args[0] == ('sym', 're') and all(is_lit(a) for a in args[1:]):
+                import re
+                vals = [a[1] for a in args[1:]]
+                if name == '.sub' and len(vals) == 3:
+                    return lit(re.sub(vals[0], vals[1], vals[2]))
+                if name == '.split' and len(vals) == 2:
+                    return lit(tuple(re.split(vals[0], vals[1])))
+                if name in ('.search', '.match') and len(vals) == 2:
+                    return lit(getattr(re, name[1:])(vals[0], vals[1]) is not None)
+            if name == 'dict' and len(args) == 2 and all(is_lit(a) and isinstance(a[1], tuple) for a in args) and len(args[0][1]) == len(args[1][1]):
+                return lit(dict(zip(args[0][1], args[1][1])))
             if name == '.get' and len(args) in (2, 3) and is_lit(args[0]) and isinstance(args[0][1], dict) and is_lit(args[1]):
                 d_ = args[0][1]
                 if args[1][1] in d_:
